@@ -41,52 +41,70 @@ fn determine_filename_replacement(
     mapping: &BTreeMap<String, String>,
     ambiguity_resolver: &AmbiguityResolver,
 ) -> Option<String> {
-    // Check if the filename contains the search pattern
-    // We need to find which variant from the mapping matches this filename
-    let mut matching_variant = None;
-    for old_variant in mapping.keys() {
-        if filename.contains(old_variant) {
-            matching_variant = Some(old_variant.clone());
-            break;
+    // Every variant of the mapping that occurs in the filename (in map order), with the text
+    // that replaces it
+    let mut replacements: Vec<(&str, String)> = Vec::new();
+    for (old_variant, new_variant) in mapping {
+        if old_variant.is_empty() || !filename.contains(old_variant.as_str()) {
+            continue;
+        }
+
+        // Check if this is an ambiguous identifier
+        if !crate::ambiguity::is_ambiguous(old_variant, &Style::all_styles()) {
+            // Not ambiguous - just use the variant map directly
+            replacements.push((old_variant, new_variant.clone()));
+            continue;
+        }
+
+        // For ambiguous identifiers, use the ambiguity resolver
+        let replacement_possible_styles = filter_compatible_styles(replace, &Style::all_styles());
+
+        // Create a minimal ambiguity context for the filename
+        // We don't have file content or line content for filenames
+        let ambiguity_context = AmbiguityContext {
+            file_path: None,
+            file_content: None,
+            line_content: None,
+            match_position: None,
+            project_root: None,
+        };
+
+        // Resolve what style should be used based on context
+        let resolved = ambiguity_resolver.resolve_with_styles(
+            old_variant,
+            replace,
+            &ambiguity_context,
+            Some(&replacement_possible_styles),
+        );
+
+        // Generate the replacement in the resolved style
+        let replacement_tokens = parse_to_tokens(replace);
+        replacements.push((old_variant, to_style(&replacement_tokens, resolved.style)));
+    }
+
+    if replacements.is_empty() {
+        return None;
+    }
+
+    // Rewrite the filename left to right: at each position the first variant (in map order)
+    // that starts there is replaced, so a name that carries the term in two styles is
+    // rewritten in both
+    let mut new_name = String::with_capacity(filename.len());
+    let mut rest = filename;
+    while let Some(ch) = rest.chars().next() {
+        if let Some((old_variant, replacement)) = replacements
+            .iter()
+            .find(|(old_variant, _)| rest.starts_with(old_variant))
+        {
+            new_name.push_str(replacement);
+            rest = &rest[old_variant.len()..];
+        } else {
+            new_name.push(ch);
+            rest = &rest[ch.len_utf8()..];
         }
     }
 
-    let matching_variant = matching_variant?;
-
-    // Check if this is an ambiguous identifier
-    if !crate::ambiguity::is_ambiguous(&matching_variant, &Style::all_styles()) {
-        // Not ambiguous - just use the variant map directly
-        let new_variant = mapping.get(&matching_variant)?;
-        return Some(filename.replace(&matching_variant, new_variant));
-    }
-
-    // For ambiguous identifiers, use the ambiguity resolver
-    let replacement_possible_styles = filter_compatible_styles(replace, &Style::all_styles());
-
-    // Create a minimal ambiguity context for the filename
-    // We don't have file content or line content for filenames
-    let ambiguity_context = AmbiguityContext {
-        file_path: None,
-        file_content: None,
-        line_content: None,
-        match_position: None,
-        project_root: None,
-    };
-
-    // Resolve what style should be used based on context
-    let resolved = ambiguity_resolver.resolve_with_styles(
-        &matching_variant,
-        replace,
-        &ambiguity_context,
-        Some(&replacement_possible_styles),
-    );
-
-    // Generate the replacement in the resolved style
-    let replacement_tokens = parse_to_tokens(replace);
-    let styled_replacement = to_style(&replacement_tokens, resolved.style);
-
-    // Replace the variant in the filename with the styled replacement
-    Some(filename.replace(&matching_variant, &styled_replacement))
+    Some(new_name)
 }
 
 #[derive(Debug, Clone)]
